@@ -245,7 +245,8 @@ class Generator(TreeListener):
         self.entered_classes.pop()
 
     def exitArray(self, tree):
-        self.src[tree] = [self.src[e] for e in tree.values]
+        # Component references are looked up on demand (they are not visited by the walker).
+        self.src[tree] = [self.get_mx(e) for e in tree.values]
 
     def exitPrimary(self, tree):
         self.src[tree] = tree.value
